@@ -463,3 +463,36 @@ def run_learn(req):
 
 
 HANDLERS["learn"] = run_learn
+
+
+def run_conform(req):
+    from opfython.models.supervised import SupervisedOPF
+    from opfython.models.unsupervised import UnsupervisedOPF
+    from opfython.models.knn_supervised import KNNSupervisedOPF
+    rows = req["rows"]
+    cfg = req["cfg"]
+    labs = sorted(set(int(r[1]) for r in rows))
+    remap = {l: i for i, l in enumerate(labs)}
+    X = np.array([r[2:] for r in rows[:10]], dtype=float)
+    Y = np.array([remap[int(r[1])] for r in rows[:10]], dtype=int)
+    Q = np.array([r[2:] for r in rows[10:]], dtype=float)
+    if cfg["model"] == "sup":
+        o = SupervisedOPF(distance=cfg["metric"])
+        o.fit(X, Y)
+        p = [int(t) for t in o.predict(Q)]
+    elif cfg["model"] == "uns":
+        o = UnsupervisedOPF(min_k=1, max_k=3, distance=cfg["metric"])
+        o.fit(X, Y)
+        pp = o.predict(Q)
+        p = [[int(t) for t in pp[0]], [int(t) for t in pp[1]]]
+    else:
+        o = KNNSupervisedOPF(max_k=3, distance=cfg["metric"])
+        o.fit(X, Y, Q, np.array([remap[int(r[1])] for r in rows[10:]], dtype=int))
+        p = [int(t) for t in o.predict(Q)]
+    g = o.subgraph
+    return dict(obs=dict(preds=p, cost=[float(nd.cost) for nd in g.nodes], pred=[int(nd.pred) for nd in g.nodes],
+                         plabel=[int(nd.predicted_label) for nd in g.nodes], order=[int(t) for t in g.idx_nodes][-10:],
+                         best_k=int(getattr(g, "best_k", 0))), violated=[])
+
+
+HANDLERS["conform"] = run_conform
